@@ -135,6 +135,11 @@ def _ia_insensitive(f, ia):
     return not any(io.get(v, 'output') == 'input' for v in vs)
 
 
+# When True, samples that are Python integers stay integers (exact arithmetic beyond 2**53, as in rtamt, which computes with
+# the numbers it is given); used by the bigint lanes only.
+KEEP_INTEGERS = False
+
+
 def dt(f, w, n, ia=None, memo=None):
     """Discrete-time robustness of f on trace w (dict var -> list of n floats): list of n values."""
     if memo is None:
@@ -153,6 +158,8 @@ def _dt(f, w, n, ia, memo):
     k = f[0]
     R = range(n)
     if k == 'var':
+        if KEEP_INTEGERS:
+            return [v if isinstance(v, int) and not isinstance(v, bool) else float(v) for v in w[f[1]]]
         return [float(v) for v in w[f[1]]]
     if k == 'const':
         return [float(f[1])] * n
